@@ -134,7 +134,7 @@ PARTS = {"sim": {"check": check_case, "strategy": cases, "budget": {"quick": 150
 
 
 def vacuity(merged, tier):
-    for cls, lim in (("clipped", 0.35), ("inside", 0.5), ("edge", 0.2), ("non_target_outside", 0.2), ("market_orders", 0.2), ("target_fills", 0.3)):
+    for cls, lim in (("clipped", 0.14), ("inside", 0.2), ("edge", 0.08), ("non_target_outside", 0.08), ("market_orders", 0.08), ("target_fills", 0.12)):
         if frac(merged, "sim", cls) < lim:
             return f"class {cls} below {lim:.0%} of runs"
     return None
